@@ -8,7 +8,7 @@ from .model import ALL32, MAXP, port_table, proto_table
 
 BOUNDARY_PORTS = [1, 2, 3, 65533, 65534, 65535]
 COMMON_PORTS = [20, 21, 22, 23, 25, 53, 69, 80, 123, 135, 161, 179, 443, 514, 521, 8080, 15001]
-PROTOS = [0, 0, 6, 6, 6, 6, 17, 17, 17, 1, 1, 47, 89, 50, 51, 2, 4, 41, 88, 103, 255, 99]
+PROTOS = [0, 0, 6, 6, 6, 6, 17, 17, 17, 1, 1, 47, 89, 50, 51, 2, 4, 41, 88, 103, 255, 99, 200]
 TCP_FLAGS = ["ack", "fin", "psh", "rst", "syn", "urg", "established"]
 # (two names in lower case that start with letters of the platform keywords object-group/addrgroup)
 GROUP_NAMES = ["G1", "G2", "SRV", "NET-A", "dmz-hosts", "admin"]
@@ -317,7 +317,16 @@ def _derive_ace(w, cfg, platform, prev):
     """Relational generation: a rule related to an earlier one (shadow-rich workloads)."""
     spec = dict(prev)
     how = w.choice(["dup", "dup", "narrow", "narrow", "narrow", "widen", "flip", "field",
-                    "sibling"])
+                    "sibling", "protosib"])
+    if how == "protosib":
+        # the same rule for another protocol without ports; two protocols that have no name on
+        # any platform are the interesting pair (both render as numbers)
+        if prev["sport"] is None and prev["dport"] is None and not prev["flags"]:
+            unnamed = [99, 200, 201, 255, 143]
+            pool = unnamed if prev["proto"] in unnamed or w.random() < 0.5 else \
+                [x for x in PROTOS if x not in (0, 6, 17)]
+            spec["proto"] = w.choice([x for x in pool if x != prev["proto"]] or [200])
+        return spec
     if cfg.get("boundary_ports") and w.random() < 0.6:
         how = w.choice(["widen", "widen", "narrow"])
     if how == "sibling":
@@ -369,6 +378,11 @@ def _derive_ace(w, cfg, platform, prev):
         spec[side] = gen_addr(w, cfg)
     elif side in ("sport", "dport") and prev["proto"] in (6, 17):
         spec[side] = gen_port(w, cfg, platform)
+    elif side == "proto" and prev["sport"] is None and prev["dport"] is None \
+            and not prev["flags"]:
+        # the same rule for another protocol (named or not): never covered by its sibling
+        spec["proto"] = w.choice([x for x in PROTOS + [200, 201] if x not in (0, 6, 17)
+                                  and x != prev["proto"]])
     else:
         spec["logs"] = () if prev["logs"] else ("log",)
     return spec
